@@ -216,7 +216,8 @@ class Observer(object):
 class AI(object):
     def __init__(self, graph, observer=None, partition=None, max_parts=48, max_depth=12, uninit_locals=True,
                  inline=None, ptr_partition=True, unroll=None, unroll_cap=48, assume_returns=None,
-                 assume_member=None, method_model=None, loop_once=None, assume_loc=None):
+                 assume_member=None, method_model=None, loop_once=None, assume_loc=None, pure_memo=False):
+        self.pure_memo = pure_memo
         self.G = graph
         self.obs = observer or Observer()
         self.partition = partition or (lambda loc, v: None)
@@ -1213,6 +1214,9 @@ class AI(object):
         if d is None:
             return None
         dims = [int(x) for x in re.findall(r'\[(\d+)\]', dtype(d) or qtype(d))]
+        sa_ = self._std_array(d)
+        if sa_ and not dims:
+            dims = [sa_[1]]
         depth = len([i for i in loc[1:] if isinstance(i, str) and i.startswith('[')])
         if len(loc) > 1 and not all(isinstance(i, str) and i.startswith('[') for i in loc[1:]):
             return None
@@ -1581,7 +1585,9 @@ class AI(object):
                     return r
             m = getattr(self, 'm_' + re.sub(r'\W', '_', str(c[1])), None)
             if m is not None:
-                return m(e, c, args, st, u)
+                r = m(e, c, args, st, u)
+                if r is not None:
+                    return r
         return self._unknown_call(e, args, st, u, c)
 
     def e_CXXOperatorCallExpr(self, e, st, u):
@@ -1801,7 +1807,37 @@ class AI(object):
     def m_c_str(self, e, c, args, st, u):
         return [(Ptr('NN', ('chars', id(e)), I(0)), st)]
 
-    m_data = m_c_str
+    @staticmethod
+    def _std_array(x):
+        """(element type, extent) when x has type std::array<T, N>."""
+        if x is None:
+            return None
+        m = re.search(r'\bstd::array<(.+),\s*(\d+)[uUlL]*>', (dtype(x) or '') + ' ' + (qtype(x) or ''))
+        return (m.group(1), int(m.group(2))) if m else None
+
+    def m_data(self, e, c, args, st, u):
+        if self._std_array(c[2]):
+            return [(Ptr('NN', l, I(0)) if l is not None else Ptr('NN', None, None), s) for (l, s) in self.lval(c[2], st, u)]
+        return self.m_c_str(e, c, args, st, u)
+
+    def m_begin(self, e, c, args, st, u):
+        if self._std_array(c[2]):
+            return self.m_data(e, c, args, st, u)
+        return None
+
+    def m_end(self, e, c, args, st, u):
+        a = self._std_array(c[2])
+        if a:
+            return [(Ptr('NN', l, I(a[1])) if l is not None else Ptr('NN', None, None), s) for (l, s) in self.lval(c[2], st, u)]
+        return None
+
+    def m_size(self, e, c, args, st, u):
+        a = self._std_array(c[2])
+        if a:
+            return [(I(a[1]), st)]
+        return None
+
+    m_max_size = m_size
 
     def call_function(self, fkey, args, st, u, site, this_loc=None):
         """Abstract inlining.  Returns [(value, state)] or None when not analysable."""
@@ -1809,7 +1845,12 @@ class AI(object):
             cur_ = [st]
             for a in args:
                 cur_ = [s2 for s_ in cur_ for (_, s2) in self.eval(a, s_, u)]
-            return [(self.assume_returns[fkey[0]], s_) for s_ in cur_]
+            av = self.assume_returns[fkey[0]]
+            if self.pure_memo and not args and this_loc is not None and this_loc[0] != 'unk':
+                # an accessor of an object nobody writes: every call yields the same value, which tests refine
+                pl = ('pure', fkey[0]) + tuple(this_loc)
+                return [(s_.mem.get(pl, av), s_) for s_ in cur_]
+            return [(av, s_) for s_ in cur_]
         if fkey not in self.G.defs or not self.inline(fkey):
             if fkey in self.G.defs and getattr(self.obs, 'wants_uninlined', False):
                 # let the observer see the argument values of a call that is not followed
@@ -2095,6 +2136,23 @@ class AI(object):
                     s2.mem[la] = na
                 if lb is not None and nb is not vb:
                     s2.mem[lb] = nb
+                for (l_, new_) in ((la, na), (lb, nb)):
+                    self._refine_alias(l_, new_, s2, u)
+                # loc + c  compared: the refinement of the sum refines loc
+                for (side, old_, new_, l_) in ((a, va, na, la), (b, vb, nb, lb)):
+                    if l_ is None and new_ is not old_ and isinstance(new_, Int):
+                        lin = self._cmp_lin(side, s2, u)
+                        if lin is not None:
+                            loc_, c_ = lin
+                            cur_ = s2.mem.get(loc_)
+                            if cur_ is None and loc_[0] == 'pure':
+                                cur_ = self.assume_returns.get(loc_[1])
+                            if isinstance(cur_, Int):
+                                lo = max(cur_.lo, new_.lo - c_) if new_.lo != -INF else cur_.lo
+                                hi = min(cur_.hi, new_.hi - c_) if new_.hi != INF else cur_.hi
+                                if lo <= hi:
+                                    s2.mem[loc_] = Int(lo, hi)
+                                    self._refine_alias(loc_, s2.mem[loc_], s2, u)
                 # relational side table for  a > b  => a - b >= 1
                 if la is not None and lb is not None and isinstance(va, Int) and isinstance(vb, Int):
                     if op == '>':
@@ -2121,6 +2179,48 @@ class AI(object):
             if len(r) == 1 and r[0][0] is not None and r[0][0][0] != 'tmp':
                 # only locations that hold scalars
                 return r[0][0]
+        if self.pure_memo and x.get('kind') == 'CXXMemberCallExpr' and not call_args(x):
+            c = callee(x)
+            if c and c[0] == 'method' and c[2] is not None:
+                d = u.by_id.get(c[3])
+                tg = self.G.resolve_decl(d) if d is not None else []
+                if len(tg) == 1 and tg[0][0] in self.assume_returns:
+                    r = self.lval(c[2], s.copy(), u)
+                    if len(r) == 1 and r[0][0] is not None and r[0][0][0] not in ('tmp', 'unk'):
+                        return ('pure', tg[0][0]) + tuple(r[0][0])
+        return None
+
+    def _refine_alias(self, l_, new_, s2, u):
+        """A const local initialised from a memoised accessor is that accessor's value."""
+        if not self.pure_memo or l_ is None or len(l_) != 1 or not isinstance(new_, Int):
+            return
+        d_ = u.by_id.get(l_[0]) if isinstance(l_[0], str) else None
+        if d_ is not None and d_.get('kind') == 'VarDecl' and kids(d_) and \
+                re.search(r'\bconst\b', qtype(d_) or '') and '&' not in (qtype(d_) or '') and '*' not in (qtype(d_) or ''):
+            pl_ = self._cmp_loc(kids(d_)[-1], s2, u)
+            if pl_ is not None and pl_[0] == 'pure':
+                s2.mem[pl_] = new_
+
+    def _cmp_lin(self, e, s, u):
+        """(loc, c) when e denotes mem[loc] + c for a constant c (no wrap: the sum is signed and its overflow is reported
+        where it is evaluated)."""
+        x = peel(e)
+        if x is None or x.get('kind') != 'BinaryOperator' or x.get('opcode') not in ('+', '-'):
+            return None
+        it = int_type(dtype(x))
+        if not it or not it[1]:
+            return None
+        a, b = kids(x)
+        la, lb = self._cmp_loc(a, s, u), self._cmp_loc(b, s, u)
+        fo = Folder(u)
+        if la is not None:
+            c = fo.fold(b)
+            if c is not None:
+                return (la, c if x['opcode'] == '+' else -c)
+        if lb is not None and x['opcode'] == '+':
+            c = fo.fold(a)
+            if c is not None:
+                return (lb, c)
         return None
 
     def _constrain(self, op, va, vb):
